@@ -1,4 +1,5 @@
 import TaskModel.Finger.StreamLemmas
+import TaskModel.Finger.TsLemmas
 import TaskModel.Finger.Facts
 /-!
 # C05 — change detection and idempotence of fingerprinted tasks
@@ -9,7 +10,8 @@ What one glob pattern matches is an oracle (`Pat.ms`); the COMBINATION is `globs
 
 * `C05_globs` — `Globs` = strictly sorted `{p | the last pattern matching p is positive}`.
 * `C05_idem` — after a successful run with nothing changed the next run executes nothing.
-* `C05_force`, `C05_missing_generates`, `C05_status_fails` — each forces a run.
+* `C05_force`, `C05_missing_generates` (both methods since TS1; `C05_missing_generates_timestamp`),
+  `C05_status_fails` — each forces a run.
 * `C05_detect_checksum` — edit / add / remove / rename-in-place of a matched file changes
   the byte stream, hence (`HashInj`) the fingerprint, hence the task reruns (`C05_detect_rerun`).
 * `C05_detect_move` (F8) — the name hashed with a source is its path relative to the task
@@ -22,8 +24,10 @@ What one glob pattern matches is an oracle (`Pat.ms`); the COMBINATION is `globs
 * `C05_detect_full` is still false: `C05_counterexample_undelimited` — a rename plus an edit can
   collide because name and content are hashed without a delimiter (also with injective names:
   `C05_detect_full_inj_false`);
-  `C05_missing_generates_timestamp_counterexample` — method timestamp does not notice a
-  deleted `generates` file once its marker exists (new finding).
+  `C05_missing_generates_timestamp_fixed` — the former witness of `C05-timestamp-missing-generates`
+  (method timestamp did not notice a deleted `generates` file once its marker existed) is rebuilt.
+  `C05_idem_timestamp` needs, since TS2, "the status did not fail before the first run":
+  `C05_idem_timestamp_full` is false (`C05_idem_timestamp_status_counterexample`).
   `C05_detect_partial` is the detection theorem for the single-change classes that do hold.
 -/
 namespace Props.C05
@@ -91,36 +95,51 @@ theorem C05_idem_checksum {i : Nat} {t : Task} (ht : pr.tasks[i]? = some t) (hm 
   rw [if_pos hup]
   exact ⟨rfl, rfl⟩
 
-/-- **Idempotence, method timestamp**, under the side condition that no source is newer than
-the first run (mtime ≤ its clock). -/
+/-- **Idempotence, method timestamp**, under the side conditions that no source is newer than the
+first run (mtime ≤ its clock), that the generates exist afterwards (TS1: a missing one forces a
+rerun) and that the `status:` commands (if any) did not fail BEFORE the first run — so that, if the
+task ran, it was the timestamp check that asked for it and touched the marker (TS2 touches the
+marker only then; see `C05_idem_timestamp_status_counterexample`). -/
 theorem C05_idem_timestamp {i : Nat} {t : Task} (ht : pr.tasks[i]? = some t) (hm : t.method = .timestamp)
     (hsrc : t.sources.isEmpty = false) (e1 e2 : Env) (s0 : State)
     (hok : (invoke cfg H pr i .run e1 s0).2.exit = .ok)
     (hold : ∀ p ∈ srcsNow t (invoke cfg H pr i .run e1 s0).1.files,
       mtimeOf (invoke cfg H pr i .run e1 s0).1.files p ≤ e1.now)
+    (hgen : gensOk t (invoke cfg H pr i .run e1 s0).1.files = true)
+    (hst0 : t.status.isEmpty = true ∨ statusOk t s0.files = true)
     (hst : t.status.isEmpty = true ∨ statusOk t (invoke cfg H pr i .run e1 s0).1.files = true) :
     (invoke cfg H pr i .run e2 (invoke cfg H pr i .run e1 s0).1).2.ran = [] ∧
     (invoke cfg H pr i .run e2 (invoke cfg H pr i .run e1 s0).1).2.skipped = true := by
-  have hst1 := (run_ok_stores cfg H pr ht e1 s0 hok).2
-  rw [isUpToDate_sources H pr hsrc] at hst1
-  simp only [srcCheck, hm] at hst1
-  have hstored := tsCheck_stored t e1.now s0
-  rw [← hst1] at hstored
+  have hts : Ts t := ⟨hm, hsrc⟩
+  -- the state after the first run is up to date as far as the timestamp check is concerned
+  have hup1 : tsUp t (invoke cfg H pr i .run e1 s0).1 = true := by
+    rw [invoke_run cfg H pr ht] at hok hold hgen ⊢
+    by_cases hup0 : (isUpToDate H pr t false e1.now s0).2 = true
+    · -- skipped: the check left the state alone, or created the marker
+      rw [if_pos hup0]
+      rw [isUpToDate_ts H pr hts]
+      exact tsUp_after_check t e1.now s0 (tsUp_of_upToDate H pr hts false e1.now s0 hup0)
+    · -- it ran, and the timestamp check had asked for it: the marker is at `e1.now`
+      rw [if_neg hup0] at hok hold hgen ⊢
+      have hno : tsUp t s0 = false := by
+        rw [isUpToDate_ts H pr hts] at hup0
+        simp only at hup0
+        rcases hst0 with h | h <;> simp [h] at hup0 <;> simp [hup0]
+      have hmarks := (runBody_ok cfg H pr i t e1 _ hok).2.1
+      have hstored : aget (runBody cfg H pr i t false e1 (isUpToDate H pr t false e1.now s0).1).1.marks (tsKey t) = some e1.now := by
+        rw [hmarks, isUpToDate_ts H pr hts]
+        exact tsCheck_stored t e1.now s0 (by rw [tsCheck_result]; exact hno)
+      generalize (runBody cfg H pr i t false e1 (isUpToDate H pr t false e1.now s0).1).1 = s1 at *
+      rw [tsUp_iff]
+      have hmem : e1.now ∈ tsGts t s1 := by unfold tsGts; rw [hstored]; simp
+      refine ⟨fun h => (by rw [h] at hmem; cases hmem), ?_, hgen⟩
+      intro p hp
+      exact Nat.le_trans (hold p hp) (le_maxOf _ _ hmem)
   generalize (invoke cfg H pr i .run e1 s0).1 = s1 at *
   rw [invoke_run cfg H pr ht]
-  have hts : (tsCheck t false e2.now s1).2 = true := by
-    unfold tsCheck
-    simp only [hstored, Bool.false_eq_true, if_false]
-    rw [if_neg (by simp)]
-    simp only [Bool.not_eq_true', List.any_eq_false, decide_eq_true_eq]
-    intro p hp
-    have h1 := hold p hp
-    have h2 : e1.now ≤ maxOf (List.map (mtimeOf s1.files) (globs (nowPats t.generates s1.files)) ++ [e1.now]) :=
-      le_maxOf _ _ (by simp)
-    omega
   have hup : (isUpToDate H pr t false e2.now s1).2 = true := by
-    rw [isUpToDate_sources H pr hsrc]
-    simp only [srcCheck, hm, hts]
+    rw [isUpToDate_ts H pr hts]
+    simp only [hup1]
     rcases hst with h | h <;> simp [h]
   rw [if_pos hup]
   exact ⟨rfl, rfl⟩
@@ -132,8 +151,10 @@ theorem C05_idem {i : Nat} {t : Task} (ht : pr.tasks[i]? = some t) (hmeth : t.me
     (hunch : match t.method with
       | .checksum => fpNow H pr t (invoke cfg H pr i .run e1 s0).1.files = fpNow H pr t s0.files ∧
                      gensOk t (invoke cfg H pr i .run e1 s0).1.files = true
-      | .timestamp => ∀ p ∈ srcsNow t (invoke cfg H pr i .run e1 s0).1.files,
-                        mtimeOf (invoke cfg H pr i .run e1 s0).1.files p ≤ e1.now
+      | .timestamp => (∀ p ∈ srcsNow t (invoke cfg H pr i .run e1 s0).1.files,
+                        mtimeOf (invoke cfg H pr i .run e1 s0).1.files p ≤ e1.now) ∧
+                      gensOk t (invoke cfg H pr i .run e1 s0).1.files = true ∧
+                      (t.status.isEmpty = true ∨ statusOk t s0.files = true)
       | .none => True)
     (hst : t.status.isEmpty = true ∨ statusOk t (invoke cfg H pr i .run e1 s0).1.files = true) :
     (invoke cfg H pr i .run e2 (invoke cfg H pr i .run e1 s0).1).2.ran = [] := by
@@ -143,19 +164,21 @@ theorem C05_idem {i : Nat} {t : Task} (ht : pr.tasks[i]? = some t) (hmeth : t.me
     exact (C05_idem_checksum cfg H pr ht hm hsrc e1 e2 s0 hok hunch.1 hunch.2 hst).1
   | timestamp =>
     rw [hm] at hunch
-    exact (C05_idem_timestamp cfg H pr ht hm hsrc e1 e2 s0 hok hunch hst).1
+    exact (C05_idem_timestamp cfg H pr ht hm hsrc e1 e2 s0 hok hunch.1 hunch.2.1 hunch.2.2 hst).1
   | none => exact absurd hm hmeth
 
 /-! ## What forces a run -/
 
-/-- the prompt (if any) is answered yes and nothing interferes with the commands -/
-def Calm (t : Task) (e : Env) : Prop := (t.prompt = false ∨ e.yes = true) ∧ e.killAt = none ∧ e.failAt = none
+/-- the prompt (if any) is answered yes and nothing interferes with the commands (no kill, no
+failing command, no `task:` call that could fail on its precondition) -/
+def Calm (t : Task) (e : Env) : Prop :=
+  (t.prompt = false ∨ e.yes = true) ∧ e.killAt = none ∧ e.failAt = none ∧ ∀ c ∈ t.cmds, c.need = none
 
 theorem runBody_calm (i : Nat) (t : Task) (e : Env) (s : State) (hc : Calm t e) :
     (runBody cfg H pr i t false e s).2.ran = List.range' 0 t.cmds.length ∧
     (runBody cfg H pr i t false e s).2.exit = .ok ∧ (runBody cfg H pr i t false e s).2.skipped = false := by
-  obtain ⟨hp, hk, hf⟩ := hc
-  have hl := cmdLoop_clean e hk hf t.cmds 0 (mkdirTask t s).files []
+  obtain ⟨hp, hk, hf, hn⟩ := hc
+  have hl := cmdLoop_clean e hk hf t.cmds hn 0 (mkdirTask t s).files []
   unfold runBody
   have hcond : (t.prompt && !false && !e.yes) = false := by
     rcases hp with h | h <;> simp [h]
@@ -187,16 +210,31 @@ theorem run_not_upToDate {i : Nat} {t : Task} (ht : pr.tasks[i]? = some t) (e : 
   · intro hc
     exact (runBody_calm cfg H pr i t e _ hc).1
 
-/-- **Missing generates** (method checksum): some non-negated `generates` pattern matches
-nothing ⇒ the task runs. -/
-theorem C05_missing_generates {i : Nat} {t : Task} (ht : pr.tasks[i]? = some t) (hm : t.method = .checksum)
+/-- **Missing generates** (method checksum, and — since TS1 — method timestamp): some non-negated
+`generates` pattern matches nothing ⇒ the task runs. -/
+theorem C05_missing_generates {i : Nat} {t : Task} (ht : pr.tasks[i]? = some t) (hm : t.method ≠ .none)
     (hsrc : t.sources.isEmpty = false) (e : Env) (s : State) (hg : gensOk t s.files = false) :
     (invoke cfg H pr i .run e s).2.skipped = false ∧
     (Calm t e → (invoke cfg H pr i .run e s).2.ran = List.range' 0 t.cmds.length) := by
   apply run_not_upToDate cfg H pr ht
-  rw [isUpToDate_sources H pr hsrc]
-  simp only [srcCheck, hm, sumCheck_result, hg]
-  cases t.status.isEmpty <;> simp
+  cases hmeth : t.method with
+  | checksum =>
+    rw [isUpToDate_sources H pr hsrc]
+    simp only [srcCheck, hmeth, sumCheck_result, hg]
+    cases t.status.isEmpty <;> simp
+  | timestamp =>
+    rw [isUpToDate_ts H pr ⟨hmeth, hsrc⟩]
+    have : tsUp t s = false := by unfold tsUp; simp [hg]
+    simp only [this]
+    cases t.status.isEmpty <;> simp
+  | none => exact absurd hmeth hm
+
+/-- the timestamp half on its own (the open finding `C05-timestamp-missing-generates` before TS1) -/
+theorem C05_missing_generates_timestamp {i : Nat} {t : Task} (ht : pr.tasks[i]? = some t) (hm : t.method = .timestamp)
+    (hsrc : t.sources.isEmpty = false) (e : Env) (s : State) (hg : gensOk t s.files = false) :
+    (invoke cfg H pr i .run e s).2.skipped = false ∧
+    (Calm t e → (invoke cfg H pr i .run e s).2.ran = List.range' 0 t.cmds.length) :=
+  C05_missing_generates cfg H pr ht (by rw [hm]; simp) hsrc e s hg
 
 /-- **Failing status** ⇒ the task runs (any method, with or without sources). -/
 theorem C05_status_fails {i : Nat} {t : Task} (ht : pr.tasks[i]? = some t) (hst : t.status.isEmpty = false)
@@ -358,7 +396,7 @@ theorem C05_detect_move_op (pr : Proj) (t : Task) (s : State) (l₁ l₂ : List 
 /- witness: paths 0 = `d/a.e`, 1 = `e/a.e` (same base name `a.e`), sources `**/*.e` -/
 private def tMv : Task :=
   { name := [120], label := [], method := .checksum, sources := [⟨false, [0, 1]⟩], generates := [],
-    status := [], prompt := false, dir := none, cmds := [⟨[]⟩] }
+    status := [], prompt := false, dir := none, cmds := [⟨[], none⟩] }
 private def prMv : Proj :=
   { base := [(0, [100, 47, 97, 46, 101]), (1, [101, 47, 97, 46, 101])], dirOf := [], dirLen := [], tasks := [tMv] }
 private def sMv : State := { State.empty with files := [(0, ⟨[7], 5⟩)] }
@@ -538,20 +576,58 @@ theorem C05_timestamp_newer_reruns (t : Task) (dry : Bool) (now : Nat) (s : Stat
     (hp : p ∈ srcsNow t s.files) (hnew : ∀ m ∈ tsGts t s, m < mtimeOf s.files p) (hpos : 0 < mtimeOf s.files p) :
     (tsCheck t dry now s).2 = false := by
   rw [tsCheck_result]
-  have : (srcsNow t s.files).any (fun p => decide (maxOf (tsGts t s) < mtimeOf s.files p)) = true := by
-    rw [List.any_eq_true]
-    exact ⟨p, hp, decide_eq_true (foldl_max_lt (tsGts t s) 0 _ hpos hnew)⟩
-  simp [this]
+  exact tsUp_false_of_newer t s p hp hnew hpos
 
-/-- **Counterexample (new finding)**: method timestamp does not notice a deleted `generates`
-file once the marker exists — the run after the deletion is skipped. -/
-theorem C05_missing_generates_timestamp_counterexample :
-    let t : Task := { tTs with generates := [⟨false, [2]⟩], cmds := [⟨[(2, [9])]⟩] }
+/-- **the former witness of `C05-timestamp-missing-generates`, now rebuilt** (TS1): run, delete the
+generates file, run again — the second run is not skipped and executes the command (an instance of
+`C05_missing_generates`; the marker exists, so before TS1 it alone supplied the time). -/
+theorem C05_missing_generates_timestamp_fixed :
+    let t : Task := { tTs with generates := [⟨false, [2]⟩], cmds := [⟨[(2, [9])], none⟩] }
     let pr : Proj := { prTs with tasks := [t] }
     let s1 := (invoke Cfg.fixed id pr 0 .run (env 10) sMv).1
     let s2 := applyOp pr (.delete 2) s1
-    ahas s1.files 2 = true ∧ gensOk t s2.files = false ∧
-    (invoke Cfg.fixed id pr 0 .run (env 20) s2).2.skipped = true := by decide
+    ahas s1.files 2 = true ∧ aget s2.marks (tsKey t) = some 10 ∧ gensOk t s2.files = false ∧
+    (invoke Cfg.fixed id pr 0 .run (env 20) s2).2.skipped = false ∧
+    (invoke Cfg.fixed id pr 0 .run (env 20) s2).2.ran = [0] := by decide
+
+/-- **Idempotence, method timestamp, full statement** (no condition on the status before the first
+run) — what `C05_idem_timestamp` was before TS2 -/
+def C05_idem_timestamp_full : Prop :=
+  ∀ (cfg : Cfg) (H : Bytes → Bytes) (pr : Proj) (i : Nat) (t : Task), pr.tasks[i]? = some t → t.method = .timestamp →
+    t.sources.isEmpty = false → ∀ (e1 e2 : Env) (s0 : State),
+    (invoke cfg H pr i .run e1 s0).2.exit = .ok →
+    (∀ p ∈ srcsNow t (invoke cfg H pr i .run e1 s0).1.files, mtimeOf (invoke cfg H pr i .run e1 s0).1.files p ≤ e1.now) →
+    gensOk t (invoke cfg H pr i .run e1 s0).1.files = true →
+    (t.status.isEmpty = true ∨ statusOk t (invoke cfg H pr i .run e1 s0).1.files = true) →
+    (invoke cfg H pr i .run e2 (invoke cfg H pr i .run e1 s0).1).2.ran = []
+
+/- sources `[0]`, `status: test -f 1`; the single command rewrites the source and creates the status file -/
+private def tSt : Task := { tTs with status := [1], cmds := [⟨[(0, [9]), (1, [1])], none⟩] }
+private def prSt : Proj := { prTs with tasks := [tSt] }
+private def sSt : State := { State.empty with files := [(0, ⟨[7], 5⟩)], marks := [(tsKey tSt, 8)] }
+
+/-- **Counterexample to the full statement (a consequence of TS2)**: the marker (8) is newer than
+the source (5) but the status command fails, so the task runs (at 10) — and because the TIMESTAMP
+check said "up to date" the marker is not touched.  The command rewrites the source (mtime 10, not
+newer than the run): the next run finds a source newer than the marker and runs again.  (The run
+after that is skipped.  The unpatched checker touched the marker on every check.) -/
+theorem C05_idem_timestamp_status_counterexample :
+    let r1 := invoke Cfg.fixed id prSt 0 .run (env 10) sSt
+    tsUp tSt sSt = true ∧ statusOk tSt sSt.files = false ∧ r1.2.exit = .ok ∧ r1.2.ran = [0] ∧
+    aget r1.1.marks (tsKey tSt) = some 8 ∧
+    (∀ p ∈ srcsNow tSt r1.1.files, mtimeOf r1.1.files p ≤ 10) ∧ gensOk tSt r1.1.files = true ∧
+    statusOk tSt r1.1.files = true ∧
+    (invoke Cfg.fixed id prSt 0 .run (env 20) r1.1).2.ran = [0] ∧
+    (invoke Cfg.fixed id prSt 0 .run (env 30) (invoke Cfg.fixed id prSt 0 .run (env 20) r1.1).1).2.skipped = true := by
+  decide
+
+theorem C05_idem_timestamp_full_false : ¬ C05_idem_timestamp_full := by
+  intro h
+  have hc := C05_idem_timestamp_status_counterexample
+  have := h Cfg.fixed id prSt 0 tSt rfl rfl rfl (env 10) (env 20) sSt hc.2.2.1 hc.2.2.2.2.2.1 hc.2.2.2.2.2.2.1
+    (Or.inr hc.2.2.2.2.2.2.2.1)
+  rw [hc.2.2.2.2.2.2.2.2.1] at this
+  cases this
 
 /-! ## non-vacuity of the idempotence and forcing theorems -/
 
@@ -560,6 +636,18 @@ example :
     r1.2.exit = .ok ∧ r1.2.ran = [0] ∧ fpNow id prMv tMv r1.1.files = fpNow id prMv tMv sMv.files ∧
     gensOk tMv r1.1.files = true ∧ (invoke Cfg.fixed id prMv 0 .run (env 20) r1.1).2.ran = [] := by decide
 
-example : Calm tMv (env 3) := ⟨Or.inl rfl, rfl, rfl⟩
+example : Calm tMv (env 3) := ⟨Or.inl rfl, rfl, rfl, by decide⟩
+
+/-- non-vacuity of `C05_idem_timestamp`: a first run that executes (marker at 10, generates written)
+and one with a `status:` that holds before and after; `C05_missing_generates` for method timestamp:
+`gensOk` is false on a state where the marker alone would vouch -/
+example :
+    let t : Task := { tTs with generates := [⟨false, [2]⟩], cmds := [⟨[(2, [9])], none⟩] }
+    let pr : Proj := { prTs with tasks := [t] }
+    let r1 := invoke Cfg.fixed id pr 0 .run (env 10) sMv
+    r1.2.exit = .ok ∧ r1.2.ran = [0] ∧ (∀ p ∈ srcsNow t r1.1.files, mtimeOf r1.1.files p ≤ 10) ∧
+    gensOk t r1.1.files = true ∧ (t.status.isEmpty = true ∨ statusOk t sMv.files = true) ∧
+    (invoke Cfg.fixed id pr 0 .run (env 20) r1.1).2.ran = [] ∧
+    gensOk t (applyOp pr (.delete 2) r1.1).files = false ∧ t.method ≠ .none := by decide
 
 end Props.C05
